@@ -182,6 +182,8 @@ def step (line : String) : String :=
   | some (id, inp, obs) =>
     match runP pCase inp, runP pObs obs with
     | some c, some o =>
+      if !wfB c.script then s!"{id} bad-case script is not well-formed (a reference to an object that does not exist yet, or a repeated route segment)"
+      else
       match levels c.script c.target with
       | none => s!"{id} bad-case target does not resolve in the script"
       | some (ver, path, _) =>
